@@ -37,7 +37,8 @@ pub fn child_loop(n_cases: usize, shard: usize, of: usize, from: usize, mut f: i
 /// Parent side: spawns `shards` children of the current executable with
 /// `<prop> shard <tier> --seed <seed> --shard i/of --from j` and collects results in case order.
 pub fn run_parent(prop: &str, tier: &str, seed: u64, n_cases: usize, shards: usize, extra_env: &[(&str, String)]) -> Vec<CaseResult> {
-    let exe = std::env::current_exe().expect("current_exe");
+    // the running image itself (stays valid when the file on disk is replaced by a rebuild)
+    let exe = std::path::PathBuf::from("/proc/self/exe");
     let results: Mutex<Vec<Option<CaseResult>>> = Mutex::new((0..n_cases).map(|_| None).collect());
     let shards = shards.max(1).min(n_cases.max(1));
     let done = AtomicUsize::new(0);
